@@ -167,6 +167,8 @@ def gen_spec(ctx, rng, tier, force=None):
         for _ in range(rng.randint(1, 2)):
             warm.append(_usable_call(g, ctx, 'geo', g.base()))
     solo_line = [[ctx.oracle(c)['steps'] for c in tc] for tc in threads]
+    if gran == 'instr' and max(max(x) for x in solo_line) > 40_000:
+        gran = 'line'                    # instruction granularity only for calls of ordinary size (wall-clock bound)
     solo = solo_line if gran == 'line' else [[ctx.oracle(c, gran='instr')['steps'] for c in tc] for tc in threads]
     est = sum(sum(s) for s in solo)
     budget = 20 * est + 100_000 * (1 if gran == 'line' else 8)
